@@ -348,13 +348,17 @@ func (c *Ctx) ancestorFill(ml *ssa.Function) *ancFill {
 							switch {
 							case l.Pos && strings.HasPrefix(l.Term, "assert[*Command]("):
 							case l.Pos && strings.HasPrefix(l.Term, "nonnil(phi{"):
+							case l.Pos && strings.HasPrefix(l.Term, "phi{assert[*Command](Group.parent(Command.Group(P0)))#1 | assert[*Command](Group.parent(Command.Group(") && strings.HasSuffix(l.Term, "#1}"):
+								// the ok flag of a comma-ok loop (every edge is the ok result of a parent.(*Command) assertion)
 							default:
 								af.problems = append(af.problems, ancProblem{"every ancestor is collected", "an ancestor enters the chain only under the additional condition " + trunc(l.String(), 100) + ": the walk stops there and outer options are lost", in2})
 							}
 						}
 					}
 				}
-				af.orderOK = strings.HasPrefix(idx, "phi{(len(phi{append(") && strings.HasSuffix(idx, " - 1) | (phi↺ - 1)}")
+				af.orderOK = strings.HasPrefix(idx, "phi{(len(phi{append(") && strings.HasSuffix(idx, " - 1) | (phi↺ - 1)}") ||
+					// counting form: for n := len(chain); n > 0; n-- { chain[n-1] }
+					strings.HasPrefix(idx, "(phi{(phi↺ - 1) | len(phi{append(") && strings.HasSuffix(idx, "} - 1)")
 				if af.orderOK {
 					af.orderWhy = "the chain is collected nearest-first and walked from its last element down to 0"
 				} else {
